@@ -64,7 +64,7 @@ pub struct Case {
 pub struct C16;
 
 const NAMES: &[&str] = &["accept", "user-agent", "accept-encoding", "x-a", "X-A", "x-b", "connection", "authorization", "Authorization"];
-const VALUES: &[&str] = &["v1", "v2", "text/html", "", "gzip", "agent/1.0", "keep-alive"];
+const VALUES: &[&[u8]] = &[b"v1", b"v2", b"text/html", b"", b"gzip", b"agent/1.0", b"keep-alive", b"caf\xe9 \xff\x80 (obs-text)"];
 const MAX_HEADERS: &[usize] = &[1, 3, 100, 24_577, usize::MAX];
 const MAX_REDIR: &[u32] = &[0, 1, 5];
 const METHODS: &[&str] = &["GET", "POST", "PUT", "DELETE", "HEAD", "OPTIONS", "PATCH", "TRACE"];
@@ -467,10 +467,10 @@ impl World {
                     let v = VALUES[*value as usize % VALUES.len()];
                     if *append {
                         o.s.header_append(n, v);
-                        model_append(&mut o.m.headers, n, v.as_bytes().to_vec());
+                        model_append(&mut o.m.headers, n, v.to_vec());
                     } else {
                         o.s.header(n, v);
-                        model_set(&mut o.m.headers, n, v.as_bytes().to_vec());
+                        model_set(&mut o.m.headers, n, v.to_vec());
                     }
                     if o.has_children {
                         self.nontrivial = true;
@@ -520,10 +520,10 @@ impl World {
                     let rb = o.b.take().unwrap();
                     if *append {
                         o.b = Some(rb.header_append(n, v));
-                        model_append(&mut o.h, n, v.as_bytes().to_vec());
+                        model_append(&mut o.h, n, v.to_vec());
                     } else {
                         o.b = Some(rb.header(n, v));
-                        model_set(&mut o.h, n, v.as_bytes().to_vec());
+                        model_set(&mut o.h, n, v.to_vec());
                     }
                     self.nontrivial = true;
                     self.writes_after_derive += 1;
@@ -534,7 +534,7 @@ impl World {
                 if !live.is_empty() {
                     let j = live[*b as usize % live.len()];
                     let o = &mut self.builders[j];
-                    let v = VALUES[*value as usize % VALUES.len()];
+                    let v = std::str::from_utf8(VALUES[*value as usize % VALUES.len()]).unwrap_or("v9");
                     let rb = o.b.take().unwrap();
                     let b64 = |s: &str| {
                         const T: &[u8] = b"ABCDEFGHIJKLMNOPQRSTUVWXYZabcdefghijklmnopqrstuvwxyz0123456789+/";
